@@ -11,10 +11,11 @@ SPStepFail(cfg, st, g, s) ==
   LET r == SPStep({}, cfg, st, s.a) p == Priority(cfg, g, st.under) IN
      (IF s.res # r.res \/ s.val # r.val \/ s.st # r.st THEN {"step"} ELSE {})
   \cup (IF s.a.op = "read" /\ (s.res # p.res \/ s.val # p.val) THEN {"protocol_read"} ELSE {})
-  \cup (IF s.a.op = "assign" /\ Conf(cfg, Prep(cfg, s.a.v)) /\
+  \cup (IF ~IsFrozen(cfg) /\ s.a.op = "assign" /\ Conf(cfg, Prep(cfg, s.a.v)) /\
            ~(IF MayAssign(cfg) THEN s.res = "ok" ELSE s.res = "AttributeError" /\ s.st = st) THEN {"assign_guard"} ELSE {})
-  \cup (IF s.a.op = "delete" /\ ~(IF MustRaiseOnDelete(cfg, g) THEN s.res = "AttributeError" /\ s.st = st ELSE s.res = "ok") THEN {"delete_rule"} ELSE {})
-  \cup (IF (s.res # "ok" /\ s.st # st) \/ (cfg.host = "managed" /\ s.st.entry # N /\ s.st.entry.t # "int") THEN {"typed_or_atomic"} ELSE {})
+  \cup (IF IsFrozen(cfg) /\ s.a.op # "read" /\ (s.res # "FrozenInstanceError" \/ s.st # st) THEN {"frozen_host_mutated"} ELSE {})
+  \cup (IF ~IsFrozen(cfg) /\ s.a.op = "delete" /\ ~(IF MustRaiseOnDelete(cfg, g) THEN s.res = "AttributeError" /\ s.st = st ELSE s.res = "ok") THEN {"delete_rule"} ELSE {})
+  \cup (IF (s.res # "ok" /\ s.st # st) \/ (Managed(cfg) /\ s.st.entry # N /\ s.st.entry.t \notin {"int", "elist"}) THEN {"typed_or_atomic"} ELSE {})
 
 RECURSIVE SPRun(_, _, _, _, _)
 SPRun(cfg, st, g, steps, i) ==
@@ -29,7 +30,7 @@ RECURSIVE CPRun(_, _, _, _)
 CPRun(cfg, st, steps, i) ==
   IF i > Len(steps) THEN {} ELSE LET s == steps[i] IN {<<i, c>> : c \in CPStepFail(cfg, st, s)} \cup CPRun(cfg, s.st, steps, i + 1)
 
-Failing(e) == IF e.kind = "sp" THEN SPRun(e.cfg, [entry |-> N, under |-> 0, backing |-> N], [ov |-> N, ca |-> N], e.steps, 1)
+Failing(e) == IF e.kind = "sp" THEN SPRun(e.cfg, SPInit(e.cfg), GInit(e.cfg), e.steps, 1)
               ELSE CPRun(e.cfg, CPInit, e.steps, 1)
 F == [i \in 1..NE |-> Failing(Events[i])]
 BadIdx == {i \in 1..NE : F[i] # {}}
